@@ -7,6 +7,7 @@ import (
 	"regexp"
 	"runtime"
 	"sort"
+	"strconv"
 	"strings"
 	"sync"
 	"sync/atomic"
@@ -168,8 +169,16 @@ type Action struct {
 }
 
 type Chunk struct {
+	// Bytes is a Go-quoted string so that invalid UTF-8 survives JSON
 	Bytes string `json:"bytes"`
 	GapUS int    `json:"gap_us"`
+}
+
+func (c Chunk) raw() string {
+	if s, err := strconv.Unquote(c.Bytes); err == nil {
+		return s
+	}
+	return c.Bytes
 }
 
 type Scenario struct {
@@ -311,7 +320,7 @@ func runScenario(sc Scenario) string {
 				return
 			default:
 			}
-			tty.InjectString(c.Bytes)
+			tty.InjectString(c.raw())
 			if c.GapUS > 0 {
 				time.Sleep(time.Duration(c.GapUS) * time.Microsecond)
 			} else {
@@ -327,6 +336,7 @@ func runScenario(sc Scenario) string {
 	phase.Store("event loop")
 	go func() {
 		handled := 0
+		probing := false
 		win := vx.Window()
 		handle := func(ev vaxis.Event) string {
 			handled++
@@ -347,6 +357,12 @@ func runScenario(sc Scenario) string {
 					sp.Draw(win.New(0, 1, 1, 1))
 				}
 				vx.Render()
+			}
+			if probing {
+				// no Suspend while the probe keys are on their way: input
+				// which arrives while the terminal is handed back is not
+				// the application's
+				return ""
 			}
 			if sc.SuspendAt > 0 && handled == sc.SuspendAt {
 				phase.Store("Suspend (mid-run)")
@@ -442,6 +458,7 @@ func runScenario(sc Scenario) string {
 			// the input still works: a modified F3 (which looks like a
 			// cursor report) and a letter arrive as two key events
 			phase.Store("probe keys after the scenario")
+			probing = true
 			tty.InjectString("\x1b[1;2R")
 			tty.InjectString("z")
 			sawF3 := false
@@ -453,6 +470,14 @@ func runScenario(sc Scenario) string {
 					if k, ok := ev.(vaxis.Key); ok {
 						if k.Keycode == vaxis.KeyF03 && k.Modifiers&vaxis.ModShift != 0 {
 							sawF3 = true
+						}
+						if k.Text == "R" {
+							// the parser's 10 ms escape timer fired between the
+							// ESC and the rest (CPU starvation): the bytes
+							// arrived as an Escape key and plain text. Not
+							// lost, and not what this probe is about
+							sawF3 = true
+							harness.R.Label("stress", "probe split by the escape timer")
 						}
 						if k.Keycode == 'z' {
 							break probe
@@ -604,7 +629,7 @@ func genScenario(rt *rapid.T) Scenario {
 	ni := rapid.IntRange(0, 25).Draw(rt, "nchunks")
 	for i := 0; i < ni; i++ {
 		sc.Input = append(sc.Input, Chunk{
-			Bytes: rapid.SampledFrom(inputChunks).Draw(rt, "chunk"),
+			Bytes: strconv.QuoteToASCII(rapid.SampledFrom(inputChunks).Draw(rt, "chunk")),
 			GapUS: rapid.SampledFrom([]int{0, 0, 100, 2000, 9000, 11000}).Draw(rt, "gap"),
 		})
 	}
